@@ -174,6 +174,39 @@ func corrC12(c *corrCtx) {
 			}
 		}
 	}
+	// histories: adaptations asked for again after other pairs (same source, other destination; swapped;
+	// repeated) — the answer may depend on the arguments only
+	nh := 300
+	if c.thorough() {
+		nh = 6000
+	}
+	pa, pb := whites[0], whites[1]
+	for k := 0; k < nh; k++ {
+		A, B := pa, pb
+		switch r.intn(6) {
+		case 0:
+			B = whites[r.intn(len(whites))]
+		case 1:
+			A = whites[r.intn(len(whites))]
+		case 2:
+			A, B = B, A
+		case 3:
+			A, B = whites[r.intn(11)], whites[r.intn(11)]
+		case 4:
+			B = A
+		}
+		ca := ciexyz.AdaptBetweenXYYWhitePoints(xyy(A), xyy(B))
+		c.emit("history/adaptxyy", fmt.Sprintf("adaptxyy %08x %08x %08x %08x %08x %08x", fb(A[0]), fb(A[1]), fb(1), fb(B[0]), fb(B[1]), fb(1)), m3hex(matrix.Matrix3(ca)))
+		sa, sb := ciexyz.ColorFromXYY(xyy(A)), ciexyz.ColorFromXYY(xyy(B))
+		cz := ciexyz.AdaptBetweenXYZWhitePoints(sa, sb)
+		c.emit("history/adaptxyz", fmt.Sprintf("adaptxyz %08x %08x %08x %08x %08x %08x", fb(sa.X), fb(sa.Y), fb(sa.Z), fb(sb.X), fb(sb.Y), fb(sb.Z)), m3hex(matrix.Matrix3(cz)))
+		got := ca.Apply(sa)
+		if dw := math.Max(math.Abs(float64(got.X-sb.X)), math.Max(math.Abs(float64(got.Y-sb.Y)), math.Abs(float64(got.Z-sb.Z)))); dw > 1e-6 {
+			c.direct(fmt.Sprintf("C12/history-white/%08x%08x-%08x%08x", fb(A[0]), fb(A[1]), fb(B[0]), fb(B[1])), "adaptation asked for after other pairs does not map its source white onto its destination white",
+				map[string]interface{}{"A": A, "B": B, "previous": [][2]float32{pa, pb}, "got": []float32{got.X, got.Y, got.Z}, "want": []float32{sb.X, sb.Y, sb.Z}})
+		}
+		pa, pb = A, B
+	}
 	c.extra["worst_white_error"] = worstWhite
 	c.extra["worst_vs_reference"] = worstRef
 	c.extra["worst_composition_error"] = worstCompose
@@ -337,6 +370,30 @@ func corrC13(c *corrCtx) {
 			}
 			check("zero-coordinate", col, w)
 		}
+		// histories: conversions of colours sharing coordinates with the previous one, other whites in between
+		prevc := ciexyz.Color{X: 0.3, Y: 0.3, Z: 0.3}
+		for i := 0; i < 120; i++ {
+			col := prevc
+			switch r.intn(5) {
+			case 0:
+				col.X = float32(2 * r.f64())
+			case 1:
+				col.Y = float32(2 * r.f64())
+			case 2:
+				col.Z = float32(2 * r.f64())
+			case 3:
+				col = ciexyz.Color{X: col.Y, Y: col.Z, Z: col.X}
+			default:
+				v := float32(r.f64())
+				col = ciexyz.Color{X: v, Y: v, Z: v}
+			}
+			ww := w
+			if i%4 == 3 {
+				ww = whites[r.intn(len(whites))]
+			}
+			check("history", col, ww)
+			prevc = col
+		}
 		// Lab box -> XYZ: finite, and Lab->XYZ->Lab consistency is exercised through the model
 		for i := 0; i < nr/2; i++ {
 			lab := cielab.Color{L: float32(-10 + 120*r.f64()), A: float32(-200 + 400*r.f64()), B: float32(-200 + 400*r.f64())}
@@ -457,6 +514,18 @@ func corrC20(c *corrCtx) {
 				t.yy[k] = float32(0.2 + 2.8*r.f64())
 			}
 		}
+		tris = append(tris, t)
+	}
+	// histories: the same chromaticities asked for again with other primary luminances (the matrix must
+	// not depend on what was asked before), and back
+	for i, n := 0, len(rgbSpaces); i < n && i < 8; i++ {
+		t := tris[i]
+		t.name = t.name + "/again"
+		t.yy = [4]float32{0.5, 2, 1.5, 1}
+		tris = append(tris, t)
+		t.yy = [4]float32{0, 0, 0, 0}
+		tris = append(tris, t)
+		t.yy = [4]float32{1, 1, 1, float32(0.3 + r.f64())}
 		tris = append(tris, t)
 	}
 	// the published spaces again, with whites of luminance 0.5 and 2
